@@ -115,7 +115,7 @@ Theorem C15_terminates_run : forall wd ls started invs, world_wf wd -> bs_pos wd
   ~ In (Err 99) (cw_run wd ls invs (cw_start wd started)).
 Proof. intros wd ls started invs Hw Hp Hd. apply run_terminates; [assumption|assumption|]. apply cw_start_inv; assumption. Qed.
 Print Assumptions C15_terminates_run.
-(* ... and the hypothesis is needed: with a batch size 0 the loop never ends *)
+(* ... and the hypothesis is needed: with a batch size 0 the loop never ends (observation O-cw2) *)
 Theorem C15_zero_batch_diverges :
   let st := [mkM 1 [(mkS 1 0 10 [], [mkT 7 1 100])] [(mkT 7 1 100, 1)]] in
   forall fuel acc, infer_loop fuel false 0 1 (mkW 1 [] [(1, 0)]) st [(1, [mkS 1 0 10 []])] acc = Err 99.
